@@ -165,14 +165,21 @@ func vkFwdOPT() *dns.OPT {
 
 func vkStartFwdUp() (*vkFwdUp, error) {
 	u := &vkFwdUp{}
-	pc, err := net.ListenPacket("udp", "127.0.0.1:0")
-	if err != nil {
-		return nil, err
-	}
-	u.addr = pc.LocalAddr().String()
-	l, err := net.Listen("tcp", u.addr)
-	if err != nil {
+	var pc net.PacketConn
+	var l net.Listener
+	var err error
+	// the same port number on UDP and TCP: the TCP one may be taken by another process, so try again
+	for attempt := 0; attempt < 100; attempt++ {
+		if pc, err = net.ListenPacket("udp", "127.0.0.1:0"); err != nil {
+			continue
+		}
+		u.addr = pc.LocalAddr().String()
+		if l, err = net.Listen("tcp", u.addr); err == nil {
+			break
+		}
 		_ = pc.Close()
+	}
+	if err != nil {
 		return nil, err
 	}
 	h := dns.HandlerFunc(u.handle)
